@@ -17,6 +17,17 @@ SUMR = z3.Function("SumR", z3.ArraySort(z3.IntSort(), z3.RealSort()), z3.IntSort
 SUMI = z3.Function("SumI", z3.ArraySort(z3.IntSort(), z3.IntSort()), z3.IntSort(), z3.IntSort(), z3.IntSort())
 
 
+PRODI = z3.Function("ProdI", z3.ArraySort(z3.IntSort(), z3.IntSort()), z3.IntSort(), z3.IntSort(), z3.IntSort())
+
+
+def sum_axioms():
+    """unfolding axioms of the ghost Sum over real arrays (definition by recursion on the upper bound)"""
+    a = z3.Const("sa", z3.ArraySort(z3.IntSort(), z3.RealSort()))
+    lo, hi = z3.Ints("slo shi")
+    return [z3.ForAll([a, lo], SUMR(a, lo, lo) == 0, patterns=[SUMR(a, lo, lo)]),
+            z3.ForAll([a, lo, hi], z3.Implies(hi > lo, SUMR(a, lo, hi) == SUMR(a, lo, hi - 1) + z3.Select(a, hi - 1)), patterns=[SUMR(a, lo, hi)])]
+
+
 def global_name(name, ex):
     if name in BUILTINS:
         return Func("builtin", name)
@@ -344,6 +355,13 @@ def reduce_op(ex, name, args, node):
             for x, y in zip(a.items, b.items):
                 r = ex.binop(ast.Add(), r, ex.binop(ast.Mult(), x, y, node), node)
             return r
+    if name in ("np.prod", "np.sum") and isinstance(args[0], Seq) and not args[0].concrete:
+        x = args[0]
+        rs = x.arr.sort().range()
+        if name == "np.sum":
+            return (SUMR if rs == z3.RealSort() else SUMI)(x.arr, z3.IntVal(0), V.to_z3(x.len()))
+        if rs == z3.IntSort():
+            return PRODI(x.arr, z3.IntVal(0), V.to_z3(x.len()))
     raise OutOfSubset("%s over symbolic sequence (needs a ghost Sum; use a contract)" % name, node)
 
 
